@@ -2070,10 +2070,44 @@ fn long_bdseq_case(out: &mut Out, rng: &mut Rng, sessions: u64) {
 
 pub const RULE: &str = "edge-node schedules through the real EoN / NodeHandle / DeviceHandle (paused tokio time, mock client whose every call the harness accepts, rejects or parks and later resolves, scripted event loop, recording managers whose callbacks can be held): (a) scripted scenarios per clause of C01-C04/C20 incl. the suspected defects; (b) every stimulus sequence of length <= L over a 14-symbol alphabet from a fresh node and from a birthed node with a birthed device; (c) random schedules of 20-200 stimuli with 1-3 devices, client policies, duplicate / early Offline, NCMD rebirths with cooldown 0 / 5 s / longer than the run, cancels at random points, and long runs wrapping seq and bdSeq. Each line = one stimulus + everything observed until quiescence. Non-trivial = at least two stimuli; distinct = distinct request-line sequences (hashed).";
 
+
+/// The node's rebirth cooldown under the UNMOCKED wall clock (the verif-hooks mock shadows the clock reading
+/// in `on_sparkplug_message`; whatever is computed from the real `SystemTime` is otherwise never run): with a
+/// 1 s cooldown a valid request is honoured, a second one right behind it is not, one after 1.1 s of real
+/// time is. Direct oracle, no model lines beyond the case's `new`.
+fn real_clock_cooldown_scenario(out: &mut Out) {
+    use srad_types::utils::verif_hooks;
+    let mut sess = Sess::begin(out, 1000);
+    out.set_desc("real-clock-cooldown".into());
+    let mut births = |sess: &mut Sess, stim: &str| -> usize {
+        verif_hooks::set_mock_timestamp(None);
+        verif_hooks::set_mock_wall(None);
+        let (evs, _, _) = sess.exec_raw(stim);
+        evs.iter().filter(|e| matches!(e, Ev::Call { kind: Kind::NBirth, .. })).count()
+    };
+    let a = births(&mut sess, "online");
+    let b = births(&mut sess, "ncmd rb=1 ts=1");
+    let c = births(&mut sess, "ncmd rb=1 ts=1");
+    std::thread::sleep(Duration::from_millis(1100));
+    let d = births(&mut sess, "ncmd rb=1 ts=1");
+    let e = births(&mut sess, "ncmd rb=1 ts=1");
+    if (a, b, c, d, e) != (1, 1, 0, 1, 0) {
+        out.fail(
+            "C15:rebirth-honoured",
+            "real-clock-cooldown",
+            format!("NBIRTHs per step under the real clock with a 1 s cooldown: online {}, request {}, request at once {}, request after 1.1 s {}, request at once {} (expected 1,1,0,1,0)", a, b, c, d, e),
+        );
+    }
+    set_clocks(1_000_000 + sess.vnow);
+    out.nontrivial();
+    out.count("real-clock-cooldown");
+}
+
 pub fn run(args: &Args, out: &mut Out) -> &'static str {
     install_hook();
     token();
     TEMPLATE_CHURN.store(true, Ordering::SeqCst);
+    real_clock_cooldown_scenario(out);
     let mut rng = Rng::new(args.seed);
     let th = args.thorough();
     scripted(out);
